@@ -10,7 +10,8 @@ EXTENDS Core
 
 CONSTANTS MCKinds,     \* input kinds explored
           MaxSteps,    \* bound on the number of inputs
-          NSess        \* number of session names used
+          NSess,       \* number of session names used
+          MCHist       \* TRUE: the realm is configured with event history
 
 VARIABLES last,        \* the last input
           steps,
@@ -22,9 +23,12 @@ VARIABLES last,        \* the last input
           intr,        \* <<callee, invocation>> -> number of cancel INTERRUPTs received
           invseen,     \* callee -> invocation ids received
           dupinv,      \* an invocation id was used twice towards one callee
-          callinfo     \* call -> [callee, inv]  (from the INVOCATION observed)
+          callinfo,    \* call -> [callee, inv]  (from the INVOCATION observed)
+          publog,      \* every accepted publication: [topic, restricted, pub]
+          live,        \* observer -> session ids announced by on_join and not yet by on_leave
+          badmeta      \* an on_join for a session already announced / on_create for an id already announced
 
-mvars == <<vars, last, steps, held, regd, issued, replies, stray, intr, invseen, dupinv, callinfo>>
+mvars == <<vars, last, steps, held, regd, issued, replies, stray, intr, invseen, dupinv, callinfo, publog, live, badmeta>>
 
 Names == <<"s1", "s2", "s3">>
 SN    == {Names[i] : i \in 1..NSess}
@@ -37,7 +41,11 @@ Keys    == {<<U_ab, "exact">>, <<U_a, "prefix">>, <<U_adot, "wildcard">>, <<U_ba
 O0 == [ack |-> FALSE, xme |-> "", xl |-> <<>>, el |-> <<>>, hx |-> FALSE, he |-> FALSE,
        xa |-> <<>>, ea |-> <<>>, dme |-> FALSE, match |-> "", invoke |-> "", dcl |-> FALSE,
        fwd |-> FALSE, tmo |-> 0, rprog |-> FALSE, mode |-> "", prog |-> FALSE, err |-> ""]
-In0 == [op |-> "", s |-> "", req |-> 0, uri |-> <<>>, id |-> 0, o |-> O0]
+F0 == [limit |-> 0, reverse |-> FALSE, from_t |-> 0, after_t |-> 0, before_t |-> 0, until_t |-> 0,
+       from_p |-> 0, after_p |-> 0, before_p |-> 0, until_p |-> 0, topic |-> <<>>]
+In0 == [op |-> "", s |-> "", req |-> 0, uri |-> <<>>, id |-> 0, o |-> O0, uri2 |-> <<>>, args |-> <<>>,
+        how |-> "", tag |-> "", f |-> F0]
+U_wampdot == <<"w","a","m","p",".">>
 
 FeatOf(s) == IF s = "s1" THEN <<"callee:call_canceling", "callee:progressive_call_results", "subscriber:publisher_identification">>
              ELSE IF s = "s2" THEN <<"callee:call_timeout">> ELSE <<>>
@@ -101,6 +109,14 @@ Observe(i) ==
      /\ dupinv' = (dupinv \/ \E sm \in invs : sm[1] \in DOMAIN invseen /\ sm[2].req \in invseen[sm[1]])
      /\ intr' = [k \in DOMAIN intr \cup {<<sm[1], sm[2].req>> : sm \in cint} |->
                    (IF k \in DOMAIN intr THEN intr[k] ELSE 0) + Cardinality({sm \in cint : <<sm[1], sm[2].req>> = k})]
+     /\ LET joins(o2)  == {sm[2].x : sm \in {z \in all : z[1] = o2 /\ z[2].k = "EVENT" /\ z[2].v = U_session_on_join}}
+            leaves(o2) == {sm[2].x : sm \in {z \in all : z[1] = o2 /\ z[2].k = "EVENT" /\ z[2].v = U_session_on_leave}}
+            old(o2)    == IF o2 \in DOMAIN live THEN live[o2] ELSE {}
+        IN /\ live' = [o2 \in DOMAIN o |-> (old(o2) \cup joins(o2)) \ leaves(o2)]
+           /\ badmeta' = (badmeta \/ \E o2 \in DOMAIN o : joins(o2) \cap old(o2) # {})
+     /\ publog' = IF i.op = "publish" /\ ValidURI(cfg.strict, "exact", i.uri) /\ ~(i.o.dme /\ ~cfg.disclose)
+                  THEN Append(publog, [topic |-> i.uri, restricted |-> i.o.hx \/ i.o.he, pub |-> NextId(used.pub)])
+                  ELSE publog
      /\ callinfo' = IF i.op = "call" /\ invs # {}
                     THEN LET sm == CHOOSE x \in invs : TRUE IN
                          (<<i.s, i.req>> :> [callee |-> sm[1], inv |-> sm[2].req, reg |-> sm[2].a]) @@ callinfo
@@ -160,12 +176,32 @@ MCNext ==
      \/ /\ "leave" \in MCKinds
         /\ \E s \in J, how \in {"goodbye", "lost"} :
              Do([In0 EXCEPT !.op = "leave", !.s = s, !.o = [O0 EXCEPT !.mode = how]], LeaveFx(Cur, s, how, ""))
+     \/ /\ "wsub" \in MCKinds
+        /\ \E s \in J :
+             Do([In0 EXCEPT !.op = "subscribe", !.s = s, !.req = N, !.uri = U_wampdot, !.o = [O0 EXCEPT !.match = "prefix"]],
+                SubscribeFx(Cur, s, N, U_wampdot, "prefix", NextId(used.sub)))
+     \/ /\ "kill" \in MCKinds
+        /\ \E s \in J, v \in J :
+             LET i == [In0 EXCEPT !.op = "metacall", !.s = s, !.req = N, !.uri = U_session_kill, !.id = sess[v].id] IN
+             Do(i, MetaCallFx(Cur, s, N, i, <<>>, 0))
+     \/ /\ "killall" \in MCKinds
+        /\ \E s \in J :
+             LET i == [In0 EXCEPT !.op = "metacall", !.s = s, !.req = N, !.uri = U_session_kill_all] IN
+             Do(i, MetaCallFx(Cur, s, N, i, <<>>, 0))
+     \/ /\ "tst" \in MCKinds
+        /\ \E s \in J, u \in Targets :
+             LET i == [In0 EXCEPT !.op = "metacall", !.s = s, !.req = N, !.uri = U_session_add_testament, !.uri2 = u, !.tag = "T"] IN
+             Do(i, MetaCallFx(Cur, s, N, i, <<>>, 0))
      \/ /\ "adv" \in MCKinds
         /\ \E ms \in {1, 2} : Do([In0 EXCEPT !.op = "advance", !.id = ms], AdvanceFx(Cur, ms))
 
-MCInit == /\ InitWith([InitCfg EXCEPT !.users = <<[id |-> "alice", role |-> "user"]>>, !.disclose = TRUE])
+MCInit == /\ InitWith([InitCfg EXCEPT !.users = <<[id |-> "alice", role |-> "user"]>>, !.disclose = TRUE,
+                                       !.hcfg = IF MCHist THEN <<[u |-> U_a, m |-> "prefix", n |-> 2], [u |-> U_ab, m |-> "", n |-> 1]>>
+                                                ELSE <<>>])
+          /\ publog = <<>>
           /\ last = In0 /\ steps = 0 /\ held = <<>> /\ regd = <<>> /\ issued = {} /\ replies = <<>>
           /\ stray = FALSE /\ intr = <<>> /\ invseen = <<>> /\ dupinv = FALSE /\ callinfo = <<>>
+          /\ live = <<>> /\ badmeta = FALSE
 MCSpec == MCInit /\ [][MCNext]_mvars
 
 \* ==========================================================================
@@ -250,6 +286,31 @@ C13_Modes ==
 C13_TimeoutExact ==
   \A s \in DOMAIN out : \A m \in Rng(out[s]) : (m.k = "ERROR" /\ m.e = ErrTimeout) => last.op = "advance"
 
+\* --- C18: an observer that holds a subscription to all wamp.* topics is told of
+\* every join and leave exactly once: the sessions it believes attached are attached
+HoldsWamp(o) == o \in J /\ <<U_wampdot, "prefix">> \in DOMAIN subs /\ o \in subs[<<U_wampdot, "prefix">>].members
+C18_ObserverView ==
+  /\ ~badmeta
+  /\ \A o \in DOMAIN live : HoldsWamp(o) => live[o] \subseteq {sess[s].id : s \in J}
+\* the victim of a kill is gone, the caller never is
+C18_Kill ==
+  (last.op = "metacall" /\ last.uri = U_session_kill) =>
+     /\ last.s \in J
+     /\ \A s \in DOMAIN sess : (sess[s].id = last.id /\ s # last.s) => s \notin J
+\* testaments are published exactly once: never kept beyond the session
+C18_Testaments == \A s \in DOMAIN tst : s \notin J => tst[s] = <<>>
+
+\* --- C20: what is retained for a history subscription is exactly the last N
+\* unrestricted publications matching it, whoever was subscribed meanwhile
+C20_Retention ==
+  \A k \in DOMAIN hist :
+    LET n    == cfg.hcfg[CHOOSE i \in DOMAIN cfg.hcfg : <<cfg.hcfg[i].u, NormMatch(cfg.hcfg[i].m)>> = k].n
+        all  == SelectSeq(publog, LAMBDA p : MatchKey(k, p.topic) /\ ~p.restricted)
+        want == IF Len(all) > n THEN SubSeq(all, Len(all) - n + 1, Len(all)) ELSE all
+    IN /\ k \in DOMAIN subs
+       /\ [j \in DOMAIN hist[k] |-> hist[k][j].pub] = [j \in DOMAIN want |-> want[j].pub]
+       /\ \A j \in DOMAIN hist[k] : hist[k][j].topic = want[j].topic
+
 \* --- C05
 C05_NoTrace ==
   \A s \in DOMAIN sess : sess[s].st = "gone" =>
@@ -257,6 +318,6 @@ C05_NoTrace ==
      /\ \A k \in DOMAIN regs : s \notin Rng(regs[k].callees)
      /\ \A c \in DOMAIN calls : c[1] # s /\ calls[c].callee # s
      /\ tst[s] = <<>>
-     /\ (last.op # "leave" \/ last.s # s) => out[s] = <<>>
+     /\ out[s] = <<>> \/ out[s][Len(out[s])].k = "CLOSED"      \* nothing after the step in which it ended
 C05_IdleEmpty == (J = {}) => (DOMAIN subs = DOMAIN hist /\ DOMAIN regs = {} /\ DOMAIN calls = {})
 =============================================================================
